@@ -29,6 +29,7 @@ type replayTmpl struct {
 	Func   string
 	PkgDir string
 	Kinds  []string
+	Label  string
 	Inputs [][2]string // name, spec expression over the root's parameters (entry state)
 	Body   string
 }
@@ -54,6 +55,8 @@ func loadReplayTemplates() []*replayTmpl {
 					t.PkgDir = rest
 				case "kinds":
 					t.Kinds = strings.Split(strings.ReplaceAll(rest, " ", ""), ",")
+				case "label":
+					t.Label = rest
 				case "input":
 					parts := strings.SplitN(rest, "=", 2)
 					if len(parts) == 2 {
@@ -86,6 +89,9 @@ func tryReplay(w *World, f failure, prop string) (bool, string) {
 			continue
 		}
 		if len(t.Kinds) > 0 && !contains(t.Kinds, f.res.Obl.Kind) {
+			continue
+		}
+		if t.Label != "" && !strings.Contains(f.res.Obl.Name, t.Label) {
 			continue
 		}
 		tmpl = t
